@@ -16,7 +16,7 @@ invariant is the induction hypothesis, the step is the postcondition of handle_d
 import z3
 
 from pyvc.vals import Val, NONE, I, B, Z, ref, fresh, cls_of, PENDING, CANCELLED, CANCELLED_AND_NOTIFIED
-from pyvc.verify import Unit, sym_inst, sym_val
+from pyvc.verify import Unit, sym_inst, sym_val, new_inst
 from pyvc.symexec import Raise, LoopSpec
 from .base import make_cfg, FIELD_TYPES, INST
 
@@ -316,8 +316,7 @@ def _cfg_init():
 def _setup_init(cls_name):
     def setup(engine, st):
         # the object under construction is fresh: private to the constructing thread until a callback registration publishes it
-        oid_ = st.alloc(cls_name)
-        st.assume(cls_of(z3.IntVal(oid_)) == engine.tag(cls_name))
+        oid_ = engine.concrete_id(new_inst(engine, st, cls_name).t)        # fresh, private, every field UNSET
         op = Z(ref(oid_), INST(cls_name))
         fs = sym_val(engine, st, ("list", "future"), "fs")
         i, j = z3.Ints("i!fs j!fs")
